@@ -1253,7 +1253,15 @@ coap_pdu_parse_opt_base(coap_pdu_t *pdu, uint32_t len) {
     if (len > 255)
       res = 0;
     break;
+  case COAP_OPTION_Q_BLOCK1:
+    if (len > 3)
+      res = 0;
+    break;
   case COAP_OPTION_BLOCK2:
+    if (len > 3)
+      res = 0;
+    break;
+  case COAP_OPTION_Q_BLOCK2:
     if (len > 3)
       res = 0;
     break;
